@@ -74,8 +74,14 @@ ScanFrom(tree, nulled, k) ==
     ELSE (IF tree[k].present /\ k # nulled THEN << [name |-> NameOrder[k], type |-> tree[k].val] >> ELSE <<>>)
          \o ScanFrom(tree, nulled, k + 1)
 
-\* iauth_xquery_config_service(name, type)
-RConfigService(sl, sv) ==
+\* iauth_xquery_config_service(name, type, add): add = FALSE only updates a service the table already has; a new
+\* service takes the first empty slot, is appended if there is none, and is refused if that slot would be beyond the 32
+\* bits of the per-client masks
+RConfigService(sl, sv, add) ==
+    IF ~add /\ {s \in 1..Len(sl) : sl[s].used /\ sl[s].name = sv.name} = {} THEN sl
+    ELSE IF {s \in 1..Len(sl) : sl[s].used /\ sl[s].name = sv.name} = {} /\ {s \in 1..Len(sl) : ~sl[s].used} = {} /\ Len(sl) >= 32
+    THEN sl
+    ELSE
     LET have == {s \in 1..Len(sl) : sl[s].used /\ sl[s].name = sv.name}
         empty == {s \in 1..Len(sl) : ~sl[s].used}
         s0 == IF have # {} THEN CHOOSE s \in have : \A s2 \in have : s <= s2
@@ -91,14 +97,16 @@ RConfigService(sl, sv) ==
                          ![s0].configured = TRUE]
        ELSE [base EXCEPT ![s0].configured = FALSE]
 
-RECURSIVE RConfigAll(_, _, _)
-RConfigAll(sl, svcs, n) == IF n > Len(svcs) THEN sl ELSE RConfigAll(RConfigService(sl, svcs[n]), svcs, n + 1)
+RECURSIVE RConfigAll(_, _, _, _)
+RConfigAll(sl, svcs, n, add) == IF n > Len(svcs) THEN sl ELSE RConfigAll(RConfigService(sl, svcs[n], add), svcs, n + 1, add)
 
-\* iauth_xquery_services_changed(): clear, configure each entry, free what is neither configured nor referenced
+\* iauth_xquery_services_changed(): clear; configure the entries the table already has and free what is neither
+\* configured nor referenced (so that retired slots are empty); then configure every entry, adding the new ones, and
+\* free again (a new entry of an unknown type)
 RServicesChanged(sl, svcs) ==
     LET cleared == IF "KEEPCONF" \in RBug THEN sl
                    ELSE [s \in 1..Len(sl) |-> [sl[s] EXCEPT !.configured = FALSE]]
-    IN UnrefAll(RConfigAll(cleared, svcs, 1), 1)
+    IN UnrefAll(RConfigAll(UnrefAll(RConfigAll(cleared, svcs, 1, FALSE), 1), svcs, 1, TRUE), 1)
 
 \* a state of the walk: [tree |-> live section, sl |-> slot table]
 \* the hook body; `nulled` = the entry whose value is NULL right now (being removed), 0 if none
